@@ -58,42 +58,173 @@ package xpath
 //@   ensures result == xp_string(iface(l))
 
 // ---------------------------------------------------------------------------
-// Arithmetic and boolean instructions (XPath 1.0 section 3.5, 3.4): each pops
-// its operands, converts them with number()/boolean() and pushes the result.
-// The whole stack is specified: the untouched prefix is stated unchanged.
+// Evaluation-stack shapes used by the instruction contracts. The stack is
+// specified as a whole: the untouched prefix is stated unchanged.
+
+//@ define top(ctx) = ctx.stack[len(ctx.stack)-1]
+//@ define arg1(ctx) = old(ctx.stack[len(ctx.stack)-1])
+//@ define arg2(ctx) = old(ctx.stack[len(ctx.stack)-2])
+//@ define pop2push1(ctx) = len(ctx.stack) == old(len(ctx.stack)) - 1 && forall(i, 0, len(ctx.stack)-1, ctx.stack[i] == old(ctx.stack[i]))
+//@ define pop1push1(ctx) = len(ctx.stack) == old(len(ctx.stack)) && forall(i, 0, len(ctx.stack)-1, ctx.stack[i] == old(ctx.stack[i]))
+//@ define push1(ctx) = len(ctx.stack) == old(len(ctx.stack)) + 1 && forall(i, 0, len(ctx.stack)-1, ctx.stack[i] == old(ctx.stack[i]))
+
+// Arithmetic and boolean instructions (XPath 1.0 sections 3.5, 3.4): each pops
+// its operands (arg2 is the left operand, arg1 the right one), converts them
+// with number()/boolean() and pushes the result.
 
 //@ func (*ProgBuilder).Add
 //@   requires ctx != nil
-//@   ensures len(ctx.stack) == old(len(ctx.stack)) - 1
-//@   ensures ctx.stack[len(ctx.stack)-1] == xp_mknum(xp_add(xp_number(old(ctx.stack[len(ctx.stack)-2])), xp_number(old(ctx.stack[len(ctx.stack)-1]))))
-//@   ensures forall(i, 0, len(ctx.stack)-1, ctx.stack[i] == old(ctx.stack[i]))
+//@   modifies ctx.stack
+//@   modifies elems(ctx.stack)
+//@   ensures pop2push1(ctx)
+//@   ensures top(ctx) == xp_mknum(xp_add(xp_number(arg2(ctx)), xp_number(arg1(ctx))))
 //@ func (*ProgBuilder).Sub
 //@   requires ctx != nil
-//@   ensures len(ctx.stack) == old(len(ctx.stack)) - 1
-//@   ensures ctx.stack[len(ctx.stack)-1] == xp_mknum(xp_sub(xp_number(old(ctx.stack[len(ctx.stack)-2])), xp_number(old(ctx.stack[len(ctx.stack)-1]))))
-//@   ensures forall(i, 0, len(ctx.stack)-1, ctx.stack[i] == old(ctx.stack[i]))
+//@   modifies ctx.stack
+//@   modifies elems(ctx.stack)
+//@   ensures pop2push1(ctx)
+//@   ensures top(ctx) == xp_mknum(xp_sub(xp_number(arg2(ctx)), xp_number(arg1(ctx))))
 //@ func (*ProgBuilder).Mul
 //@   requires ctx != nil
-//@   ensures len(ctx.stack) == old(len(ctx.stack)) - 1
-//@   ensures ctx.stack[len(ctx.stack)-1] == xp_mknum(xp_mul(xp_number(old(ctx.stack[len(ctx.stack)-2])), xp_number(old(ctx.stack[len(ctx.stack)-1]))))
-//@   ensures forall(i, 0, len(ctx.stack)-1, ctx.stack[i] == old(ctx.stack[i]))
+//@   modifies ctx.stack
+//@   modifies elems(ctx.stack)
+//@   ensures pop2push1(ctx)
+//@   ensures top(ctx) == xp_mknum(xp_mul(xp_number(arg2(ctx)), xp_number(arg1(ctx))))
 //@ func (*ProgBuilder).Div
 //@   requires ctx != nil
-//@   ensures len(ctx.stack) == old(len(ctx.stack)) - 1
-//@   ensures ctx.stack[len(ctx.stack)-1] == xp_mknum(xp_div(xp_number(old(ctx.stack[len(ctx.stack)-2])), xp_number(old(ctx.stack[len(ctx.stack)-1]))))
-//@   ensures forall(i, 0, len(ctx.stack)-1, ctx.stack[i] == old(ctx.stack[i]))
+//@   modifies ctx.stack
+//@   modifies elems(ctx.stack)
+//@   ensures pop2push1(ctx)
+//@   ensures top(ctx) == xp_mknum(xp_div(xp_number(arg2(ctx)), xp_number(arg1(ctx))))
+//@ func (*ProgBuilder).Mod
+//@   requires ctx != nil
+//@   modifies ctx.stack
+//@   modifies elems(ctx.stack)
+//@   ensures pop2push1(ctx)
+//@   ensures top(ctx) == xp_mknum(xp_mod(xp_number(arg2(ctx)), xp_number(arg1(ctx))))
 //@ func (*ProgBuilder).Negate
 //@   requires ctx != nil
-//@   ensures len(ctx.stack) == old(len(ctx.stack))
-//@   ensures ctx.stack[len(ctx.stack)-1] == xp_mknum(xp_neg(xp_number(old(ctx.stack[len(ctx.stack)-1]))))
-//@   ensures forall(i, 0, len(ctx.stack)-1, ctx.stack[i] == old(ctx.stack[i]))
+//@   modifies ctx.stack
+//@   modifies elems(ctx.stack)
+//@   ensures pop1push1(ctx)
+//@   ensures top(ctx) == xp_mknum(xp_neg(xp_number(arg1(ctx))))
 //@ func (*ProgBuilder).And
 //@   requires ctx != nil
-//@   ensures len(ctx.stack) == old(len(ctx.stack)) - 1
-//@   ensures ctx.stack[len(ctx.stack)-1] == xp_mkbool(xp_boolean(old(ctx.stack[len(ctx.stack)-2])) && xp_boolean(old(ctx.stack[len(ctx.stack)-1])))
-//@   ensures forall(i, 0, len(ctx.stack)-1, ctx.stack[i] == old(ctx.stack[i]))
+//@   modifies ctx.stack
+//@   modifies elems(ctx.stack)
+//@   ensures pop2push1(ctx)
+//@   ensures top(ctx) == xp_mkbool(xp_boolean(arg2(ctx)) && xp_boolean(arg1(ctx)))
 //@ func (*ProgBuilder).Or
 //@   requires ctx != nil
-//@   ensures len(ctx.stack) == old(len(ctx.stack)) - 1
-//@   ensures ctx.stack[len(ctx.stack)-1] == xp_mkbool(xp_boolean(old(ctx.stack[len(ctx.stack)-2])) || xp_boolean(old(ctx.stack[len(ctx.stack)-1])))
-//@   ensures forall(i, 0, len(ctx.stack)-1, ctx.stack[i] == old(ctx.stack[i]))
+//@   modifies ctx.stack
+//@   modifies elems(ctx.stack)
+//@   ensures pop2push1(ctx)
+//@   ensures top(ctx) == xp_mkbool(xp_boolean(arg2(ctx)) || xp_boolean(arg1(ctx)))
+
+// Comparisons (XPath 1.0 section 3.4) when neither operand is a node-set.
+//@ func (*ProgBuilder).Ne
+//@   requires ctx != nil
+//@   modifies ctx.stack
+//@   modifies elems(ctx.stack)
+//@   ensures implies(xp_isscalar(arg1(ctx)) && xp_isscalar(arg2(ctx)), pop2push1(ctx) && top(ctx) == xp_mkbool(xp_ne_scalar(arg2(ctx), arg1(ctx))))
+//@ func (*ProgBuilder).Lt
+//@   requires ctx != nil
+//@   modifies ctx.stack
+//@   modifies elems(ctx.stack)
+//@   ensures implies(xp_isscalar(arg1(ctx)) && xp_isscalar(arg2(ctx)), pop2push1(ctx) && top(ctx) == xp_mkbool(xp_lt_scalar(arg2(ctx), arg1(ctx))))
+//@ func (*ProgBuilder).Le
+//@   requires ctx != nil
+//@   modifies ctx.stack
+//@   modifies elems(ctx.stack)
+//@   ensures implies(xp_isscalar(arg1(ctx)) && xp_isscalar(arg2(ctx)), pop2push1(ctx) && top(ctx) == xp_mkbool(xp_le_scalar(arg2(ctx), arg1(ctx))))
+//@ func (*ProgBuilder).Gt
+//@   requires ctx != nil
+//@   modifies ctx.stack
+//@   modifies elems(ctx.stack)
+//@   ensures implies(xp_isscalar(arg1(ctx)) && xp_isscalar(arg2(ctx)), pop2push1(ctx) && top(ctx) == xp_mkbool(xp_gt_scalar(arg2(ctx), arg1(ctx))))
+//@ func (*ProgBuilder).Ge
+//@   requires ctx != nil
+//@   modifies ctx.stack
+//@   modifies elems(ctx.stack)
+//@   ensures implies(xp_isscalar(arg1(ctx)) && xp_isscalar(arg2(ctx)), pop2push1(ctx) && top(ctx) == xp_mkbool(xp_ge_scalar(arg2(ctx), arg1(ctx))))
+
+// Comparison callbacks passed around by the comparison instructions: pure
+// functions of their two operands (they may panic on an invalid datum).
+//@ func type:datumCompFn
+//@   params d1 d2
+
+// Node-set comparisons (existential semantics); functional part see below.
+//@ func (*context).compareNodesetsAndPush
+//@   requires ctx != nil
+//@   modifies ctx.stack
+//@   modifies elems(ctx.stack)
+//@   ensures push1(ctx)
+
+// ---------------------------------------------------------------------------
+// Core function library (XPath 1.0 section 4). Arguments arrive already
+// converted by convertArgType; each function returns the spec value.
+
+//@ func type:DatumTypeChecker
+//@   params d
+//@   nopanic
+
+//@ func (*context).verifyArgNumAndTypes
+//@   requires ctx != nil
+//@   modifies mapof(testedFunctionTable)
+
+//@ func ceiling
+//@   requires ctx != nil && len(args) == 1 && args[0] != nil
+//@   modifies mapof(testedFunctionTable)
+//@   ensures result == xp_mknum(xp_ceiling(xp_number(args[0])))
+//@ func floor
+//@   requires ctx != nil && len(args) == 1 && args[0] != nil
+//@   modifies mapof(testedFunctionTable)
+//@   ensures result == xp_mknum(xp_floor(xp_number(args[0])))
+//@ func round
+//@   requires ctx != nil && len(args) == 1 && args[0] != nil
+//@   modifies mapof(testedFunctionTable)
+//@   ensures result == xp_mknum(xp_round(xp_number(args[0])))
+//@ func not
+//@   requires ctx != nil && len(args) == 1 && args[0] != nil
+//@   modifies mapof(testedFunctionTable)
+//@   ensures result == xp_mkbool(!xp_boolean(args[0]))
+//@ func xBoolean
+//@   requires ctx != nil && len(args) == 1 && args[0] != nil
+//@   modifies mapof(testedFunctionTable)
+//@   ensures result == xp_mkbool(xp_boolean(args[0]))
+//@ func xNumber
+//@   requires ctx != nil && len(args) == 1 && args[0] != nil
+//@   modifies mapof(testedFunctionTable)
+//@   ensures result == xp_mknum(xp_number(args[0]))
+//@ func xString
+//@   requires ctx != nil && len(args) == 1 && args[0] != nil
+//@   modifies mapof(testedFunctionTable)
+//@   ensures result == xp_mklit(xp_string(args[0]))
+//@ func xTrue
+//@   requires ctx != nil
+//@   modifies mapof(testedFunctionTable)
+//@   ensures result == xp_mkbool(true)
+//@ func xFalse
+//@   requires ctx != nil
+//@   modifies mapof(testedFunctionTable)
+//@   ensures result == xp_mkbool(false)
+//@ func concat
+//@   requires ctx != nil && len(args) == 2 && args[0] != nil && args[1] != nil
+//@   modifies mapof(testedFunctionTable)
+//@   ensures result == xp_mklit(xp_string(args[0]) + xp_string(args[1]))
+//@ func contains
+//@   requires ctx != nil && len(args) == 2 && args[0] != nil && args[1] != nil
+//@   modifies mapof(testedFunctionTable)
+//@   ensures result == xp_mkbool(xp_contains(xp_string(args[0]), xp_string(args[1])))
+//@ func startsWith
+//@   requires ctx != nil && len(args) == 2 && args[0] != nil && args[1] != nil
+//@   modifies mapof(testedFunctionTable)
+//@   ensures result == xp_mkbool(xp_starts_with(xp_string(args[0]), xp_string(args[1])))
+//@ func substringBefore
+//@   requires ctx != nil && len(args) == 2 && args[0] != nil && args[1] != nil
+//@   modifies mapof(testedFunctionTable)
+//@   ensures result == xp_mklit(xp_substring_before(xp_string(args[0]), xp_string(args[1])))
+//@ func substringAfter
+//@   requires ctx != nil && len(args) == 2 && args[0] != nil && args[1] != nil
+//@   modifies mapof(testedFunctionTable)
+//@   ensures result == xp_mklit(xp_substring_after(xp_string(args[0]), xp_string(args[1])))
